@@ -434,8 +434,7 @@ func (x Expr) Get(data any) (results []any) {
 					}
 				default:
 					got := reflectGetWild(tv)
-					stack[len(stack)-1] = prev
-					stack = append(stack, di|descentFlag)
+					stack = append(stack, prev, di|descentFlag)
 					if int(fi) == len(x)-1 { // last one
 						for i := len(got) - 1; 0 <= i; i-- {
 							results = append(results, got[i])
@@ -1276,8 +1275,7 @@ func (x Expr) FirstFound(data any) (any, bool) {
 					}
 				default:
 					got := reflectGetWild(tv)
-					stack[len(stack)-1] = prev
-					stack = append(stack, di|descentFlag)
+					stack = append(stack, prev, di|descentFlag)
 					if int(fi) == len(x)-1 { // last one
 						if 0 < len(got) {
 							return got[0], true
